@@ -787,6 +787,8 @@ class MemoryPathIO(AbstractPathIO):
         elif mode in ("wb", "ab", "r+b"):
             node = self.get_node(path)
             if node is None:
+                if mode == "r+b":
+                    raise FileNotFoundError
                 parent = self.get_node(path.parent)
                 if parent is None or parent.type != "dir":
                     raise FileNotFoundError
@@ -837,6 +839,10 @@ class MemoryPathIO(AbstractPathIO):
             snode = self.get_node(source)
             if None in (snode, dparent):
                 raise FileNotFoundError
+            if dparent.type != "dir":
+                raise NotADirectoryError
+            if self._absolute(source) in self._absolute(destination).parents:
+                raise OSError("Invalid argument")
             for i, node in enumerate(sparent.content):
                 if node.name == source.name:
                     sparent.content.pop(i)
